@@ -64,6 +64,16 @@ ASHAPES = {
     'struct a9': [[2], [1, 2]], 'struct a10': [[2, 2, 2], [1, 1, 2]], 'struct a11': [[2, 4], [1, 1]],
 }
 
+# unions passed/returned by value (used by C14's extern "Python" cases): name -> (C members, first member type, size, align)
+UNIONS = {
+    'union u1': ("int i; float f;", 'int', 4, 4),
+    'union u2': ("double d; char c[3];", 'double', 8, 8),
+    'union u3': ("long long a; char pad[16];", 'long long', 16, 8),
+    'union u4': ("short h; char c;", 'short', 2, 2),
+    'union u5': ("unsigned int w; char pad[12];", 'unsigned int', 12, 4),
+}
+UNION_DECLS = "".join("%s { %s };\n" % (n, d[0]) for n, d in sorted(UNIONS.items()))
+
 # pointer parameter types: name -> (item type name or 'void', const?)
 PTRS = {
     'int *': ('int', 0), 'short *': ('short', 0), 'unsigned char *': ('unsigned char', 0),
